@@ -52,7 +52,7 @@ func (l *lockedWriter) Write(p []byte) (int, error) {
 type muxTarget struct{ byKey map[string]*scripted.Target }
 
 func keyOf(id string) string {
-	if strings.Contains(id, "xa") {
+	if strings.Contains(id, "xa") && !strings.Contains(id, "xab") {
 		return "a"
 	}
 	return "b"
@@ -108,6 +108,14 @@ func (d *muxBounceDelivery) Abort(ctx context.Context) error {
 	return d.d.Abort(ctx)
 }
 
+// body2: the two messages of a pair have different bodies; an "empty"/"bare" shape is a header-only message
+func body2(shape, k string) string {
+	if bodyKind(shape) == "empty" {
+		return ""
+	}
+	return crashBody + k
+}
+
 func runCrash2(t *testing.T, sc Scenario2, crashes []CrashSpec, run int, w io.Writer) runResult {
 	var res runResult
 	lw := &lockedWriter{w: w}
@@ -116,6 +124,9 @@ func runCrash2(t *testing.T, sc Scenario2, crashes []CrashSpec, run int, w io.Wr
 	ids := map[string]string{"a": "m" + strconv.Itoa(sc.ID) + "xa", "b": "m" + strconv.Itoa(sc.ID) + "xb"}
 	if sc.ID%2 == 1 { // the start-up scan goes through the spool in name order: let B come first on odd pairs
 		ids["a"] = "n" + strconv.Itoa(sc.ID) + "xa"
+	}
+	if sc.ID%3 == 0 { // A's identifier is a proper prefix of B's: every file name of A is a prefix of one of B
+		ids["b"] = ids["a"] + "b"
 	}
 	senders := map[string]string{"a": "sender-a@example.com", "b": "sender-b@example.com"}
 	started := map[string]bool{}
@@ -130,7 +141,8 @@ func runCrash2(t *testing.T, sc Scenario2, crashes []CrashSpec, run int, w io.Wr
 		if !started[k] {
 			started[k] = true
 			trs[k].Emit("Cfg", vtrace.Ev{"partial": scs[k].Cfg.Partial, "list": scs[k].Cfg.List, "mt": crashMt,
-				"upstream": scs[k].Upstream, "crashes": cr, "scenario": sc.ID, "msg": k, "two": true})
+				"upstream": scs[k].Upstream, "crashes": cr, "scenario": sc.ID, "msg": k, "two": true,
+				"body": bodyKind(scs[k].Shape), "shape": scs[k].Shape})
 		}
 	}
 	shared := func(e string, f vtrace.Ev) {
@@ -200,7 +212,7 @@ func runCrash2(t *testing.T, sc Scenario2, crashes []CrashSpec, run int, w io.Wr
 					if r, err := body.Open(); err == nil {
 						b, _ := io.ReadAll(r)
 						r.Close()
-						ok = ok && string(b) == crashBody+k
+						ok = ok && string(b) == body2(scs[k].Shape, k)
 					} else {
 						ok = false
 					}
@@ -259,11 +271,14 @@ func runCrash2(t *testing.T, sc Scenario2, crashes []CrashSpec, run int, w io.Wr
 					hdr.Add("Subject", "verif crash "+k)
 					begin(k)
 					trs[k].Emit("QBody", nil)
-					if err := d.Body(ctx, hdr, buffer.MemoryBuffer{Slice: []byte(crashBody + k)}); err != nil {
-						t.Error(err)
+					berr := d.Body(ctx, hdr, buffer.MemoryBuffer{Slice: []byte(body2(s.Shape, k))})
+					trs[k].Emit("QBodyRet", vtrace.Ev{"err": berr != nil})
+					if berr != nil { // refused: the source aborts
+						trs[k].Emit("QAbort", nil)
+						err := d.Abort(ctx)
+						trs[k].Emit("QAbortRet", vtrace.Ev{"err": err != nil})
 						return
 					}
-					trs[k].Emit("QBodyRet", nil)
 					if s.Upstream == "abort" {
 						trs[k].Emit("QAbort", nil)
 						err := d.Abort(ctx)
